@@ -180,6 +180,8 @@ def run_check(prop, tier, seed):
     for ji, j in enumerate(jobs):
         for s in range(j["shards"]):
             tasks.append((j, s, splitmix(seed, prop, j["mode"], j["cmd"], ji, s)))
+    # longest first: interpreter shards, then sanitizer shards, then native ones
+    tasks.sort(key=lambda t: {"miri": 0, "tsan": 1, "asan": 2}.get(t[0]["mode"], 3))
     with ThreadPoolExecutor(max_workers=NCPU) as ex:
         results = list(ex.map(lambda t: run_shard(t[0], t[1], t[2], tier), tasks))
     return merge(prop, tier, seed, t0, results)
